@@ -2,8 +2,12 @@ import NmVerif.Proto
 import NmVerif.Arr
 import NmVerif.Index.Checked
 import NmVerif.Index.Transpose
+import NmVerif.Index.Broadcast
+import NmVerif.Index.Pad
+import NmVerif.Index.Tile
+import NmVerif.Index.Roll
 namespace NmVerif.Driver.C15
-open NmVerif NmVerif.Proto
+open NmVerif NmVerif.Proto NmVerif.Index
 
 def fmtView (v : IxView) : String := s!"ok shape={fmtNats v.dst} data={fmtInts v.provenance}"
 
@@ -24,6 +28,26 @@ def handle : Handler := fun op a =>
         | some v => match transposeView v.dst none with
           | some w => fmtView (w.comp v)
           | none => "nothing")
+  | "v_broadcast_to" => orBad do
+      let s ← a.nats "shape"; let t ← a.nats "to"
+      pure (match broadcastToView s t with | some v => fmtView v | none => "nothing")
+  | "v_add" => orBad do
+      -- operands data[k]=k and data[k]=1000+k: the sum decodes both source ids
+      let s1 ← a.nats "shape"; let s2 ← a.nats "shape2"
+      pure (match broadcastArraysViews [s1, s2] with
+        | some [v1, v2] =>
+          let d := (v1.provenance.zip v2.provenance).map (fun p => p.1 + p.2 + 1000)
+          s!"ok shape={fmtNats v1.dst} data={fmtInts d}"
+        | _ => "nothing")
+  | "v_pad" => orBad do
+      let s ← a.nats "shape"; let w ← a.nats "width"
+      pure (match padView s w with | some v => fmtView v | none => "nothing")
+  | "v_tile" => orBad do
+      let s ← a.nats "shape"; let r ← a.nats "reps"
+      pure (match tileView s r with | some v => fmtView v | none => "nothing")
+  | "v_roll" => orBad do
+      let s ← a.nats "shape"; let sh ← a.int "shift"; let ax ← a.int "axis"
+      pure (match rollView s sh ax with | some v => fmtView v | none => "nothing")
   | _ => none
 
 end NmVerif.Driver.C15
